@@ -330,3 +330,42 @@ package iavl
 //@ func (*nodeDB).legacyRootKey(ndb, version) (k)
 //@   assumed formats 'r' + 8-byte big-endian version through the generic keyformat.KeyFormat (variadic, reflection-like type switch: outside the verified subset)
 //@   ensures k != nil && len(k) == 9
+
+// ---------------------------------------------------------------- node.go: serialisation (C13: the pinned on-disk layout, docs/node/node.md)
+//
+// body(node) = V(height) V(size) B(key) ( leaf: B(value)
+//            | inner: B32(hash) V(mode) child(left) child(right) )
+// child = V(version) V(nonce) for a 12-byte node key, B32(hash) for a legacy (32-byte) reference;
+// mode bit 0 / 1 = left / right child is a legacy reference.
+
+//@ func (*Node).writeBytes(node, w) (err)
+//@   props C13 C12
+//@   requires w != nil
+//@   requires node != nil && node.subtreeHeight != 0 && node.leftNodeKey != nil ==> len(node.leftNodeKey) == 12 || len(node.leftNodeKey) == 32
+//@   requires node != nil && node.subtreeHeight != 0 && node.rightNodeKey != nil ==> len(node.rightNodeKey) == 12 || len(node.rightNodeKey) == 32
+//@   let s0 = wstream[w]
+//@   let hdr = appB(appV(appV(wstream[w], node.subtreeHeight), node.size), ord(node.key), len(node.key))
+//@   let lver = ite(be64(row(node.leftNodeKey), node.leftNodeKey.off) >= 9223372036854775808, be64(row(node.leftNodeKey), node.leftNodeKey.off) - 18446744073709551616, be64(row(node.leftNodeKey), node.leftNodeKey.off))
+//@   let rver = ite(be64(row(node.rightNodeKey), node.rightNodeKey.off) >= 9223372036854775808, be64(row(node.rightNodeKey), node.rightNodeKey.off) - 18446744073709551616, be64(row(node.rightNodeKey), node.rightNodeKey.off))
+//@   let mode = ite(len(node.leftNodeKey) == 32, 1, 0) + ite(len(node.rightNodeKey) == 32, 2, 0)
+//@   ensures [nilnode] node == nil ==> err != nil
+//@   ensures [leaf] err == nil && node.subtreeHeight == 0 ==> wstream[w] == appB(hdr, ord(node.value), len(node.value))
+//@   ensures [inner] err == nil && node.subtreeHeight != 0 && len(node.hash) == 32 ==> wstream[w] == ite(len(node.rightNodeKey) == 32, appB(ite(len(node.leftNodeKey) == 32, appB(appV(appB(hdr, ord(node.hash), 32), mode), ord(node.leftNodeKey), 32), appV(appV(appV(appB(hdr, ord(node.hash), 32), mode), lver), be32(row(node.leftNodeKey), node.leftNodeKey.off + 8))), ord(node.rightNodeKey), 32), appV(appV(ite(len(node.leftNodeKey) == 32, appB(appV(appB(hdr, ord(node.hash), 32), mode), ord(node.leftNodeKey), 32), appV(appV(appV(appB(hdr, ord(node.hash), 32), mode), lver), be32(row(node.leftNodeKey), node.leftNodeKey.off + 8))), rver), be32(row(node.rightNodeKey), node.rightNodeKey.off + 8)))
+//@   ensures [childkeys] err == nil && node.subtreeHeight != 0 ==> node.leftNodeKey != nil && node.rightNodeKey != nil
+//@   modifies wstream[w]
+
+
+// Decoders of stored bytes: total on arbitrary input (no panic); nk is the
+// 12-byte key the node was requested under, buf is whatever the store returned.
+//@ func MakeNode(nk, buf) (node, err)
+//@   props C13
+//@   requires len(nk) >= 12
+//@   ensures [nilonerr] err != nil ==> node == nil
+//@   ensures [keyed] err == nil ==> node != nil && node.nodeKey != nil
+//@   modifies *
+
+//@ func MakeLegacyNode(hash, buf) (node, err)
+//@   props C13 C16
+//@   ensures [nilonerr] err != nil ==> node == nil
+//@   ensures [keyed] err == nil ==> node != nil && node.nodeKey != nil && node.isLegacy
+//@   modifies *
